@@ -21,7 +21,7 @@ ASSUMPTIONS = [
     "exits do not register further exits while the stack unwinds",
     "exception identity is compared through the injected id carried by the object (objects interned per run); odd ids are BaseException subclasses (cancellation-like)",
 ]
-KINDS = ["acm", "scm", "pcm", "pa", "ps", "cb", "acb"]
+KINDS = ["acm", "scm", "pcm", "pscm", "pa", "ps", "cb", "acb"]
 BODY_EXC = 5
 
 
@@ -117,6 +117,8 @@ async def _register(stack, entry, kind, std=False):
         stack.enter_context(SCM(entry)) if std else await stack.enter_context(SCM(entry))
     elif kind == "pcm":
         stack.push_async_exit(ACM(entry)) if std else stack.push(ACM(entry))
+    elif kind == "pscm":
+        stack.push(SCM(entry))      # a synchronous context manager object pushed without entering it: its __exit__ is the exit
     elif kind == "pa":
         async def aexit(et, ev, tb):
             return entry.react(ev)
